@@ -55,3 +55,8 @@ def run(ctx):
     from .. import spaces as _spaces
 
     _spaces.localised_inherit(ctx)  # singular parts, sparse forms, potentials and FMM point maps are computed on the localised companion space
+    from .. import fx as _fx, argbind as _ab
+
+    _fx.parameter_resolution(ctx)  # the quadrature order given with an operator is the order its assembler integrates with
+    _fx.assembler_plumbing(ctx)
+    _ab.forwarded_optionals(ctx)
